@@ -889,7 +889,7 @@ def preserved_lines(steps):
         ok = "1" if s.outcome.startswith("ok:") else "0"
         if s.post.startswith("SNAPFAIL"):
             s = s._replace(post=s.pre)
-        lines.append("fs preserved " + " ".join(tree_tokens(s.pre) + tree_tokens(s.post) + [ok] + fsops.encode(s.op)))
+        lines.append("fs preserved2 " + " ".join(tree_tokens(s.pre) + tree_tokens(s.post) + [ok] + fsops.encode(s.op)))
     return lines
 
 
